@@ -58,6 +58,15 @@ def _is_interesting(crate, body, index, depth=0, seen=None):
         tgt = index.get(p)
         if tgt is not None and eligible(crate, tgt, index, depth + 1, seen):
             return True
+    # the protocol may sit in a closure the helper creates (`seq.into_iter().try_fold(None, |error, item| ..)`)
+    for blk in body.blocks:
+        if blk.get("cleanup"):
+            continue
+        for st in blk["stmts"]:
+            if st["k"] == "assign" and st["rv"]["k"] == "agg" and st["rv"].get("ak") == "closure":
+                cb = index.get(st["rv"].get("path"))
+                if cb is not None and cb.path not in seen and _is_interesting(crate, cb, index, depth + 1, seen):
+                    return True
     # a pure re-wrapper: takes a ControlFlow parameter and switches on it
     for i in range(1, body.arg_count + 1):
         if body.ltys(i).startswith("std::ops::ControlFlow<"):
